@@ -6,11 +6,13 @@ package main
 import (
 	"crypto/sha256"
 	"encoding/hex"
+	"encoding/json"
 	"fmt"
 	"go/token"
 	"go/types"
 	"os"
 	"path/filepath"
+	"regexp"
 	"sort"
 	"strings"
 	"sync"
@@ -36,6 +38,7 @@ type program struct {
 	sizes    types.Sizes
 	loadWall time.Duration
 	overlay  map[string][]byte
+	rebound  []string // renames of unexported identifiers the harness files were rebound to
 	rtypeM   methodSet
 	errorM   methodSet
 	reflPkg  *ssa.Package
@@ -97,9 +100,11 @@ func harnessOverlay(verifRoot string, dirs []string) (map[string][]byte, error) 
 	// line inserted at the top of dialOne that consults a harness-provided hook
 	if b, err := os.ReadFile(filepath.Join(repoRoot, "dialer.go")); err == nil {
 		src := string(b)
-		sig := "func (d *Dialer) dialOne(addr string) (net.Conn, error) {\n"
-		if strings.Contains(src, sig) && !strings.Contains(src, "vxDialHook") {
-			src = strings.Replace(src, sig, sig+"\tif vxDialHook != nil {\n\t\treturn vxDialHook(addr)\n\t}\n", 1)
+		// the one method of *Dialer that connects to a single address (dialOne in the pinned tree)
+		re := regexp.MustCompile(`func \((\w+) \*Dialer\) [a-z]\w*\((\w+) string\) \(net\.Conn, error\) \{\n`)
+		if m := re.FindAllStringSubmatch(src, -1); len(m) == 1 && !strings.Contains(src, "vxDialHook") {
+			sig := m[0][0]
+			src = strings.Replace(src, sig, sig+"\tif vxDialHook != nil {\n\t\treturn vxDialHook("+m[0][2]+")\n\t}\n", 1)
 			src += "\n// vxDialHook is installed by verification harnesses (overlay only).\nvar vxDialHook func(addr string) (net.Conn, error)\n\n// VXSetDialHook installs the dial hook (overlay only).\nfunc VXSetDialHook(f func(addr string) (net.Conn, error)) { vxDialHook = f }\n"
 			ov[filepath.Join(repoRoot, "dialer.go")] = []byte(src)
 		}
@@ -137,21 +142,46 @@ func loadProgram(verifRoot string, dirs []string) (*program, error) {
 	if err != nil {
 		return nil, err
 	}
-	nerr := 0
-	packages.Visit(initial, nil, func(p *packages.Package) {
-		for _, e := range p.Errors {
-			if strings.HasPrefix(p.PkgPath, repoModule) {
-				fmt.Fprintf(os.Stderr, "load error in %s: %v\n", p.PkgPath, e)
-				nerr++
+	countErrs := func(print bool) (n, inHarness int) {
+		packages.Visit(initial, nil, func(p *packages.Package) {
+			for _, e := range p.Errors {
+				if strings.HasPrefix(p.PkgPath, repoModule) {
+					if print {
+						fmt.Fprintf(os.Stderr, "load error in %s: %v\n", p.PkgPath, e)
+					}
+					n++
+					if strings.Contains(e.Pos, "zz_vx") {
+						inHarness++
+					}
+				}
+			}
+		})
+		return
+	}
+	var rebound []string
+	if n, h := countErrs(false); n > 0 && n == h {
+		// only the harness files fail to type-check: try to follow renames of
+		// unexported identifiers (see heal.go), then load once more
+		if files, notes := healHarness(initial, ov, loadBaselineShape(verifRoot)); files > 0 {
+			rebound = notes
+			fmt.Fprintf(os.Stderr, "harness rebound to renamed identifiers: %s\n", strings.Join(notes, "; "))
+			initial, err = packages.Load(cfg, patterns...)
+			if err != nil {
+				return nil, err
 			}
 		}
-	})
-	if nerr > 0 {
+	}
+	if nerr, _ := countErrs(true); nerr > 0 {
 		return nil, fmt.Errorf("%d load errors in repo packages", nerr)
+	}
+	if os.Getenv("VX_WRITE_SHAPE") != "" {
+		if b, err := json.MarshalIndent(collectShape(initial), "", " "); err == nil {
+			os.WriteFile(os.Getenv("VX_WRITE_SHAPE"), b, 0644)
+		}
 	}
 	prog, pkgs := ssautil.AllPackages(initial, ssa.InstantiateGenerics|ssa.SanityCheckFunctions*0)
 	prog.Build()
-	p := &program{prog: prog, byPath: map[string]*ssa.Package{}, overlay: ov}
+	p := &program{prog: prog, byPath: map[string]*ssa.Package{}, overlay: ov, rebound: rebound}
 	for _, sp := range prog.AllPackages() {
 		p.byPath[sp.Pkg.Path()] = sp
 	}
